@@ -10,6 +10,8 @@ import (
 	"os"
 	"sort"
 	"strings"
+
+	li "github.com/corazawaf/libinjection-go"
 )
 
 type baselineTables struct {
@@ -59,7 +61,47 @@ func cmdTableCheck(args []string) {
 		os.WriteFile(dump, b, 0o644)
 		return
 	}
-	r := newReport("C20", "every entry of the five shipped tables against the well-formedness predicate; every entry of the pinned baseline against the current tables; exhaustive")
+	r := newReport("C20", "every entry of the five shipped tables against the well-formedness predicate; every entry of the pinned baseline against the current tables; exhaustive; the tables are checked in a fresh process and again after warm-up traffic (every keyword, tag, event and attribute in lower case through both detectors)")
+	fresh := currentTables()
+	checkTables(r, "fresh")
+	// warm-up traffic, then the same check again: the shipped tables must not change at run time
+	tableDrivenSQL(func(s string) { li.IsSQLi(s); li.IsSQLi(strings.ToUpper(s)) })
+	tableDrivenHTML(func(s string) { li.IsXSS(s); li.IsXSS(strings.ToUpper(s)) })
+	for _, s := range corpus("sqli") {
+		li.IsSQLi(s)
+	}
+	checkTables(r, "after-traffic")
+	after := currentTables()
+	diffTables(r, fresh, after)
+	if base != "" {
+		checkBaseline(r, base)
+	}
+	bts, _ := json.MarshalIndent(r, "", " ")
+	if out != "" {
+		os.WriteFile(out, bts, 0o644)
+	}
+	fmt.Println(string(bts))
+}
+
+func diffTables(r *report, a, b baselineTables) {
+	for k, v := range b.Keywords {
+		if av, ok := a.Keywords[k]; !ok {
+			r.fail("table-changed-at-run-time", readHexString(k), fmt.Sprintf("keyword %q (class %q) appeared in the shipped table after traffic", readHexString(k), v))
+		} else if av != v {
+			r.fail("table-changed-at-run-time", readHexString(k), fmt.Sprintf("keyword %q changed class %q -> %q after traffic", readHexString(k), av, v))
+		}
+	}
+	for k := range a.Keywords {
+		if _, ok := b.Keywords[k]; !ok {
+			r.fail("table-changed-at-run-time", readHexString(k), "keyword disappeared after traffic")
+		}
+	}
+	if len(a.BlackTags) != len(b.BlackTags) || len(a.Blacks) != len(b.Blacks) || len(a.BlackEvents) != len(b.BlackEvents) {
+		r.fail("table-changed-at-run-time", "", "an XSS list changed size after traffic")
+	}
+}
+
+func checkTables(r *report, phase string) {
 	t := liTables()
 	for k, v := range t.Keywords {
 		bad := ""
@@ -89,7 +131,7 @@ func cmdTableCheck(args []string) {
 			}
 		}
 		if bad != "" {
-			r.fail("keyword-malformed", k, fmt.Sprintf("%q -> %q: %s", k, v, bad))
+			r.fail("keyword-malformed", k, fmt.Sprintf("[%s] %q -> %q: %s", phase, k, v, bad))
 		}
 		r.eval(k, true)
 	}
@@ -114,7 +156,10 @@ func cmdTableCheck(args []string) {
 	if len(t.HexMap) != 256 {
 		r.fail("hex-map-size", "", fmt.Sprint(len(t.HexMap)))
 	}
-	if base != "" {
+}
+
+func checkBaseline(r *report, base string) {
+	{
 		var b baselineTables
 		raw, err := os.ReadFile(base)
 		if err != nil || json.Unmarshal(raw, &b) != nil {
@@ -159,11 +204,6 @@ func cmdTableCheck(args []string) {
 			r.eval("baseevent:"+k, true)
 		}
 	}
-	bts, _ := json.MarshalIndent(r, "", " ")
-	if out != "" {
-		os.WriteFile(out, bts, 0o644)
-	}
-	fmt.Println(string(bts))
 }
 
 func readHexString(h string) string {
